@@ -36,17 +36,18 @@ def _b64val(o):
 
 Engine E2.  xtext_encode / xtext_decode (smtp.py) and encoder / decoder / modified_base64 /
 modified_unbase64 (imap4.py) are recompiled from /repo's source onto LBytes.  The C helpers they
-call realise symbolic text, so they are replaced, for the lifted world only, by pure-Python ports
-written with integer arithmetic (no branch on a symbolic value):
-  f"+{o:02X}"                 -> lbytes.l_fval (fixed-radix digits)
-  str.encode('utf-16-be')     -> _utf16be_encode        binascii.b2a_base64 -> _b2a_base64
-  bytes.decode('utf-7')       -> _utf7_decode (port of CPython's DecodeUTF7)
-  str.encode('utf-7')         -> _utf7_encode (port of CPython's EncodeUTF7; only the pre-fix
+call realise symbolic text, so they are replaced, for the lifted world only, by pure-Python ports:
+  f"+{o:02X}"                 -> lbytes.l_fval (fixed-radix digits, lift option fstrings=True)
+  int(bytes, 16)              -> _l_int (two hex digits without a fork; else lbytes.l_int)
+  str.encode('utf-16-be')     -> _utf16be_encode        binascii.b2a_base64 -> _b2a_base64_text
+  bytes.decode('utf-7')       -> _utf7_decode (port of CPython's PyUnicode_DecodeUTF7Stateful)
+  str.encode('utf-7')         -> _utf7_encode (port of _PyUnicode_EncodeUTF7; only the pre-fix
                                  modified_base64 calls it - kept so that the old code is refuted)
   memoryview(s).cast('c')     -> _cview;   set(...) of characters -> _CharSet (range tests)
-Every port is compared with the C original in selftest() on every run (all code points < 0x300,
-a BMP/astral sample, all byte pairs of the base64 alphabet, malformed utf-7).  In replay the real
-functions and the real C codecs run.
+Digit <-> character tables are single if-then-else terms (lbytes.pw_map), not forks.  Every port is
+compared with the C original in selftest() on every run (all code points < 0x300, a BMP/astral
+sample, all base64 digits, hex pairs, malformed utf-7 sequences).  In replay the real functions and
+the real C codecs run.
 """
 from vlib import api, lbytes, lift
 from vlib.api import H, cover
@@ -77,7 +78,11 @@ OUTSIDE = ["longer strings (both codecs work character by character; the only cr
            "decoding of byte strings that are not encoder output (only the round trip is claimed)"]
 ASSUMPTIONS = ["the pure-Python ports of utf-16-be encoding, binascii.b2a_base64, the utf-7 codec and "
                "memoryview.cast('c') agree with CPython (differentially tested in selftest on every run, the "
-               "count is in the evidence); LBytes/LBuf reproduce bytes/bytearray (lbytes.selftest)"]
+               "count is in the evidence); LBytes/LBuf reproduce bytes/bytearray (lbytes.selftest)",
+               "inside the decoder port the value of a base64 digit produced by the encoder port on the same path "
+               "is taken from the term structure (B64VAL(B64CHAR(v)) = v for 0 <= v <= 63, also through the "
+               "'/' <-> ',' substitutions): proved by z3 for all integers in selftest on every run",
+               "z3 runs with smt.arith.solver=2 for this property (performance setting only)"]
 EXPLANATION = ("lifted real codecs on symbolic text; C helpers replaced by validated arithmetic ports; "
                "character classes case-split into shards")
 
